@@ -125,6 +125,72 @@ def decodeAux : Nat → Bytes → Res
 /-- every chunk consumes at least its LF, so `length + 1` rounds always suffice (`decodeAux_fuel`). -/
 def decode (s : Bytes) : Res := decodeAux (s.length + 1) s
 
+/-! ### the same reader fed by SEGMENTS
+
+  The underlying connection hands the `bfe_bufio.Reader` its bytes in arbitrary pieces (one TCP read each, possibly
+  empty).  State: the unread bytes already buffered, and the list of pieces still to come (`[]` = EOF).
+  `ReadSlice('\n')` looks in the buffer and fills (appends the next piece) until it finds the LF, meets EOF, or has
+  4096 bytes without LF; `Read`/`ReadFull` deliver from the buffer and fill when it is empty.  (The buffer's capacity
+  only matters through the two length tests below, which are the ones of `readLine`.) -/
+
+def readLineSeg : Bytes → List Bytes → Except Err (Bytes × Bytes × List Bytes)
+  | buf, [] =>
+    match readLine buf with
+    | .error e => .error e
+    | .ok (l, r) => .ok (l, r, [])
+  | buf, g :: rest =>
+    match splitLF buf with
+    | some (l, r) =>
+      if l.length + 1 ≥ maxLineLength then .error .toolong
+      else .ok (trimTrailing (l ++ [10]), r, g :: rest)
+    | none => if buf.length ≥ bufSize then .error .toolong else readLineSeg (buf ++ g) rest
+
+/-- read `n` bytes (fewer at EOF): (data, buffer afterwards, pieces afterwards) -/
+def takeSeg : Nat → Bytes → List Bytes → Bytes × Bytes × List Bytes
+  | n, buf, [] => (buf.take n, buf.drop n, [])
+  | n, buf, g :: rest =>
+    if n ≤ buf.length then (buf.take n, buf.drop n, g :: rest)
+    else
+      let x := takeSeg (n - buf.length) g rest
+      (buf ++ x.1, x.2.1, x.2.2)
+
+/-- result of the segmented reader: like `Res`, but the unread rest keeps its shape (buffer, pieces to come) -/
+structure ResS where
+  body : Bytes
+  err : Err
+  buf : Bytes
+  segs : List Bytes
+
+def ResS.toRes (x : ResS) : Res := ⟨x.body, x.err, x.buf ++ x.segs.flatten⟩
+
+def decodeSegAux : Nat → Bytes → List Bytes → ResS
+  | 0, buf, segs => ⟨[], .ueof, buf, segs⟩
+  | fuel + 1, buf, segs =>
+    match readLineSeg buf segs with
+    | .error e => ⟨[], e, [], []⟩
+    | .ok (line, b1, s1) =>
+      match parseHexUint line with
+      | .error e => ⟨[], e, [], []⟩
+      | .ok n =>
+        if n.toNat = 0 then ⟨[], .eof, b1, s1⟩
+        else
+          let d := takeSeg n.toNat b1 s1
+          if d.1.length < n.toNat then ⟨d.1, .ueof, [], []⟩
+          else
+            let t := takeSeg 2 d.2.1 d.2.2
+            match t.1 with
+            | [a, b] =>
+              if a.toNat = 13 ∧ b.toNat = 10 then
+                let x := decodeSegAux fuel t.2.1 t.2.2
+                ⟨d.1 ++ x.body, x.err, x.buf, x.segs⟩
+              else ⟨d.1, .malformed, [], []⟩
+            | _ => ⟨d.1, .ueof, [], []⟩
+
+/-- the chunked reader on a connection that delivers `segs` one piece per read -/
+def decodeSegS (buf : Bytes) (segs : List Bytes) : ResS := decodeSegAux ((buf ++ segs.flatten).length + 1) buf segs
+
+def decodeSeg (segs : List Bytes) : Res := (decodeSegS [] segs).toRes
+
 /-! ### the encoder -/
 
 def hexChar (d : Nat) : UInt8 := if d < 10 then UInt8.ofNat (48 + d) else UInt8.ofNat (87 + d)
